@@ -88,7 +88,7 @@ def main():
                         if m and os.path.exists(m.group(1)):
                             shutil.copy(m.group(1), os.path.join(dest, "replay_%s.json" % c))
             finally:
-                sh("git -C /repo checkout -- .")
+                sh("git -C /repo checkout -- . && git -C /repo clean -fdq contracts packages")
         meta["wall_s"] = round(time.time() - t0)
         json.dump(meta, open(os.path.join(dest, "meta.json"), "w"), indent=1)
         results[sid] = {"confirmed": conf["ok"], "caught_by": meta["caught_by"]}
